@@ -174,8 +174,31 @@ def monHeartbeat (es : List Ev) : Option String :=
       if !okIds then some s!"heartbeat-ids:g{g}" else if dead then some s!"heartbeat-after-end:g{g}" else none
     | _ => none) [] es 0
 
+/-- partition watcher: once a poll showed a different partition count than the watcher's first answer — a different
+number, the topic vanished (UnknownTopicOrPartition with a non-zero first count), the connection was lost, or the
+start-up lookup failed — the watcher ends the generation: it does not poll again -/
+def monWatch (es : List Ev) : Option String :=
+  scan (fun past e =>
+    match e with
+    | .watchCall g t =>
+      -- answers to this watcher so far, oldest first
+      let hist := (past.filter (fun p => match p with
+        | .watchParts g' t' _ => g' == g && t' == t | .watchErr g' t' _ => g' == g && t' == t | _ => false)).reverse
+      match hist with
+      | [] => none
+      | .watchErr _ _ _ :: _ => some s!"watch-after-failed-start:g{g}:t{t}"
+      | .watchParts _ _ n0 :: rest =>
+        if rest.any (fun p => match p with
+            | .watchParts _ _ n => n != n0
+            | .watchErr _ _ .unknownTopic => n0 != 0
+            | .watchErr _ _ er => !er.isKafka
+            | _ => false)
+        then some s!"watch-after-change:g{g}:t{t}" else none
+      | _ => none
+    | _ => none) [] es 0
+
 def monitors (es : List Ev) : List String :=
-  [monOneLive es, monCtx es, monLeave es, monBackoff es, monHeartbeat es, monLateStart es].filterMap id
+  [monOneLive es, monCtx es, monLeave es, monBackoff es, monHeartbeat es, monWatch es, monLateStart es].filterMap id
 
 def showPC (p : PC) : String := (toString (repr p)).replace "\n" " "
 
@@ -196,6 +219,14 @@ def answer (line : String) : String :=
       | _, _ =>
         let bad := (evs.splitOn ";").find? (fun t => (parseEv t).isNone)
         s!"bad-op {bad.getD "?"}"
+    | ["hbwait", iv, el] =>
+      -- the same observation while the generation waits to be picked up by Next
+      match iv.toNat?, el.toNat?, _impl.toNat? with
+      | some iv, some el, some n =>
+        let ideal := el / (max iv 1)
+        let okc := decide (ideal / 4 ≤ n ∧ n ≤ ideal + 2) && decide (0 < el)
+        s!"model={if okc then toString n else s!"expected {ideal / 4}..{ideal + 2} heartbeats before hand-off"} holds={if okc then 1 else 0}"
+      | _, _, _ => s!"model=no-observation holds=0"
     | ["hbrate", iv, el] =>
       -- observation with tolerance: heartbeats in `el` ms at interval `iv` ms: between a quarter of the ideal count and ideal + 2
       match iv.toNat?, el.toNat?, _impl.toNat? with
